@@ -1310,6 +1310,7 @@ def run(ctx):
     cov.update(stage_perm(ctx, rng))
     import sys
     cov.update(big.stage_alias(ctx, random.Random(ctx.seed * 31 + 8), instances(ctx), sys.modules[__name__]))
+    cov.update(big.stage_probes(ctx))
     tm["diag"] = round(time.time() - t0, 1)
     cov["stage_seconds"] = tm
     import linear_operator
@@ -1342,6 +1343,8 @@ def replay(rp):
         return big.replay_alias(rp, sys.modules[__name__])
     if rp.get("kind", "").startswith("large-index"):
         return big.replay_large(rp)
+    if rp.get("kind", "").startswith("probe"):
+        return big.replay_probe(rp)
     if "recipe" in rp:
         from linear_operator import settings
         rc = rp["recipe"]
